@@ -231,6 +231,11 @@ pub struct CCase {
     /// after m). After the tasks a further snapshot completes alone, the node restarts and must hold what it held.
     #[serde(default)]
     pub on_disk_prelude: bool,
+    /// (C06's engine only) database d has the arbiter strategy and an arbiter client is connected: a stale versioned
+    /// write is parked (the key is put back with the in-conflict marker) instead of being refused. The replies are not
+    /// judged then, only the restart phase
+    #[serde(default)]
+    pub arbiter_db: bool,
 }
 
 const CKEYS: [&str; 2] = ["n", "m"];
@@ -247,7 +252,7 @@ fn cop_strategy() -> impl Strategy<Value = COp> {
 }
 
 pub fn ccase_strategy() -> impl Strategy<Value = CCase> {
-    (prop::collection::vec(prop::collection::vec(cop_strategy(), 1..4), 2..4), prop::collection::vec(prop_oneof![3 => Just(0u16), 2 => any::<u16>()], 0..40)).prop_map(|(clients, schedule)| CCase { clients, schedule, snapshot: None, on_disk_prelude: false })
+    (prop::collection::vec(prop::collection::vec(cop_strategy(), 1..4), 2..4), prop::collection::vec(prop_oneof![3 => Just(0u16), 2 => any::<u16>()], 0..40)).prop_map(|(clients, schedule)| CCase { clients, schedule, snapshot: None, on_disk_prelude: false, arbiter_db: false })
         .prop_flat_map(|c| prop_oneof![2 => Just(None), 1 => Just(Some(false)), 1 => Just(Some(true))].prop_map(move |s| CCase { snapshot: s, ..c.clone() }))
         // (half of the snapshot cases meet the on-disk prelude: the snapshot has six keys to store around the clients' keys,
         // which gives the clients room between its copy of the keys and its put-back of a key)
@@ -257,7 +262,7 @@ pub fn ccase_strategy() -> impl Strategy<Value = CCase> {
 /// C06's use of this engine: every case has a snapshot task, the on-disk prelude and the restart phase; what the
 /// restart phase finds is C06's business and carries its name
 pub fn ccase_strategy_for_c06() -> impl Strategy<Value = CCase> {
-    (ccase_strategy(), any::<bool>()).prop_map(|(c, reclaim)| CCase { snapshot: Some(c.snapshot.unwrap_or(reclaim)), on_disk_prelude: true, ..c })
+    (ccase_strategy(), any::<bool>(), prop::bool::weighted(0.35)).prop_map(|(c, reclaim, arbiter_db)| CCase { snapshot: Some(c.snapshot.unwrap_or(reclaim)), on_disk_prelude: true, arbiter_db, ..c })
 }
 
 /// the restart phase belongs to C06: C02's own runs use the prelude for the replies only
@@ -445,9 +450,14 @@ pub fn run_conc(ctx: &Ctx, case: &CCase) -> Result<Outcome, String> {
     let mut node = Node::boot_single(&dir);
     let mut admin = Session::new();
     admin.auth(&node);
-    admin.send(&node, "create-db d tok");
+    admin.send(&node, if case.arbiter_db { "create-db d tok arbiter" } else { "create-db d tok" });
     admin.send(&node, "use-db d tok");
     admin.send(&node, "set n 10");
+    let mut arbiter = Session::new();
+    if case.arbiter_db {
+        arbiter.send(&node, "use-db d tok");
+        arbiter.send(&node, "arbiter");
+    }
     if case.on_disk_prelude {
         admin.send(&node, "set m stored");
         for i in 0..6 {
@@ -567,7 +577,7 @@ pub fn run_conc(ctx: &Ctx, case: &CCase) -> Result<Outcome, String> {
             }
         }
     }
-    if fail.is_none() {
+    if fail.is_none() && !case.arbiter_db {
         for ki in 0..2 {
             let per_key: Vec<Call> = calls.iter().filter(|c| key_of(&c.op) == ki).cloned().collect();
             let tomb = case.snapshot.is_some();
@@ -597,11 +607,14 @@ pub fn run_conc(ctx: &Ctx, case: &CCase) -> Result<Outcome, String> {
         use std::panic::{catch_unwind, AssertUnwindSafe};
         admin.send(&node, "snapshot false");
         node.pump();
-        let held = |n: &Node| -> std::collections::BTreeMap<String, (String, i32)> { n.dump_db("d").unwrap_or_default().into_iter().filter(|(k, v)| !v.2 && !k.starts_with('$')).map(|(k, v)| (k, (v.0, v.1))).collect() };
+        let held = |n: &Node| -> std::collections::BTreeMap<String, (String, i32)> { n.dump_db("d").unwrap_or_default().into_iter().filter(|(k, v)| !v.2 && !k.starts_with('$')).filter(|(_, v)| !(v.0 == "<Empty>" && v.1 == -2)).map(|(k, v)| (k, (v.0, v.1))).collect() };
+        // (a removed key that a conflicting write parked for the arbiter holds "<Empty>" with the in-conflict marker: what a
+        // conflict on a removed key leaves behind is not stated by any property, it is not compared)
         let tick = catch_unwind(AssertUnwindSafe(|| node.snapshot_tick()));
         let before = held(&node);
         drop(admin);
         drop(watcher);
+        drop(arbiter);
         drop(node);
         durability_judged = true;
         if let Err(e) = tick {
@@ -766,7 +779,7 @@ pub fn run(ctx: &Ctx, rep: &mut Report) {
     if rep.failures.is_empty() {
         let progs = small_programs();
         let scheds = bounded_schedules(if ctx.quick() { 14 } else { 22 });
-        let cases = progs.into_iter().flat_map(move |p| scheds.clone().into_iter().map(move |s| CCase { clients: p.clone(), schedule: s, snapshot: None, on_disk_prelude: false }));
+        let cases = progs.into_iter().flat_map(move |p| scheds.clone().into_iter().map(move |s| CCase { clients: p.clone(), schedule: s, snapshot: None, on_disk_prelude: false, arbiter_db: false }));
         enumerate(ctx, rep, "two-clients-all-schedules-with-at-most-2-preemptions", cases, |c| conc_guard(ctx, c));
     }
     if rep.failures.is_empty() {
